@@ -200,6 +200,15 @@ CHECKS = {
         "runtime oracle: real dump/load round trip vs per-format table of stored attributes and printed precision",
         "4/C02",
     ),
+    "C15": (
+        "exploration",
+        "Three generations of save + reload with the real dump_one / load_one for generated objects of all 13 read/write formats "
+        "and every corpus file converted to every format that accepts it: generation 2 must be bit-identical to generation 1 "
+        "(deep snapshot, exact, NaN-aware), the third file byte-identical to the second, and no later save may fail (QCSchema "
+        "provenance removed before comparing).",
+        "runtime oracle: repeated real save/reload cycles compared by deep snapshot and bytes",
+        "4/C15",
+    ),
 }
 
 NOT_YET = "check not built yet (work in progress; see DESIGN.md section 5b)"
